@@ -103,6 +103,9 @@ func genC10(run *Run) []*Spec {
 		if r.Intn(5) == 0 {
 			sp.StatusCodes = []int{503, 504}
 		}
+		if r.Intn(3) == 0 {
+			sp.Flavour = "http"
+		}
 		for k := 0; k < 4; k++ {
 			switch r.Intn(5) {
 			case 0:
